@@ -41,6 +41,7 @@ Fails(e) ==
     [] e.op = "hop_trace"     -> JHopTrace(e)
     [] e.op = "iso_trace"     -> JIsoTrace(e)
     [] e.op = "unit_trace"    -> JUnitTrace(e)
+    [] e.op = "path_trace"    -> JPathTrace(e)
     [] e.op = "pure_call"     -> JPureCall(e)
     [] e.op = "same_elsewhere" -> JSameElsewhere(e)
     [] e.op = "check"         -> JCheck(e)
